@@ -6,6 +6,7 @@ import (
 	"fmt"
 	"go/ast"
 	"go/constant"
+	"go/token"
 	"go/types"
 	"strings"
 )
@@ -124,6 +125,43 @@ func (g *gl) call(c *ast.CallExpr, bs *[]glBind) string {
 					if tv := g.info().Types[be.Y]; tv.Value != nil {
 						if id, ok := ast.Unparen(be.X).(*ast.Ident); ok && len(fl.Type.Params.List) == 1 && id.Name == fl.Type.Params.List[0].Names[0].Name {
 							return fmt.Sprintf("(indexNe %s (%s : UInt8))", g.expr(c.Args[0], bs), tv.Value.ExactString())
+						}
+					}
+				}
+			}
+		}
+		// func(r rune) bool { if r == C { count++ }; return count == N }  with a captured local counter that is not
+		// read again after the call: the index at which the running count of C reaches N
+		if fl, ok := ast.Unparen(c.Args[1]).(*ast.FuncLit); ok && len(fl.Body.List) == 2 && len(fl.Type.Params.List) == 1 && len(fl.Type.Params.List[0].Names) == 1 {
+			r := fl.Type.Params.List[0].Names[0].Name
+			ifs, ok1 := fl.Body.List[0].(*ast.IfStmt)
+			rs, ok2 := fl.Body.List[1].(*ast.ReturnStmt)
+			if ok1 && ok2 && ifs.Init == nil && ifs.Else == nil && len(ifs.Body.List) == 1 && len(rs.Results) == 1 {
+				cond, okc := ast.Unparen(ifs.Cond).(*ast.BinaryExpr)
+				inc, oki := ifs.Body.List[0].(*ast.IncDecStmt)
+				ret, okr := ast.Unparen(rs.Results[0]).(*ast.BinaryExpr)
+				if okc && oki && okr && cond.Op == token.EQL && ret.Op == token.EQL && inc.Tok == token.INC {
+					cx, _ := ast.Unparen(cond.X).(*ast.Ident)
+					cnt, _ := ast.Unparen(inc.X).(*ast.Ident)
+					rc, _ := ast.Unparen(ret.X).(*ast.Ident)
+					cv, nv := g.info().Types[cond.Y], g.info().Types[ret.Y]
+					if cx != nil && cnt != nil && rc != nil && cx.Name == r && cv.Value != nil && nv.Value != nil &&
+						g.info().ObjectOf(cnt) == g.info().ObjectOf(rc) {
+						if v, ok := g.info().ObjectOf(cnt).(*types.Var); ok && !v.IsField() && v.Parent() != v.Pkg().Scope() && g.leanType(v.Type()) == "Int" {
+							if cval, ok := constant.Int64Val(constant.ToInt(cv.Value)); ok && cval >= 0 && cval < 128 {
+								// the counter must not be read after the call (its final value is not modelled)
+								used := false
+								ast.Inspect(g.cur.decl.Body, func(n ast.Node) bool {
+									if id, ok := n.(*ast.Ident); ok && id.Pos() > c.End() && g.info().ObjectOf(id) == v {
+										used = true
+									}
+									return true
+								})
+								if used || g.insideLoop(c.Pos()) {
+									g.bad(c.Pos(), "the counter of a bytes.IndexFunc predicate is used after the call or the call is inside a loop")
+								}
+								return fmt.Sprintf("(indexCount %s (%d : UInt8) %s (%s : Int))", g.expr(c.Args[0], bs), cval, g.vname(v), nv.Value.ExactString())
+							}
 						}
 					}
 				}
@@ -395,4 +433,23 @@ func (g *gl) setPath(path ast.Expr, val string) (*types.Var, string) {
 	}
 	g.bad(path.Pos(), "assignment target %T", path)
 	return nil, val
+}
+
+// is the position inside a for / range statement of the function being translated?
+func (g *gl) insideLoop(pos token.Pos) bool {
+	in := false
+	ast.Inspect(g.cur.decl.Body, func(n ast.Node) bool {
+		switch x := n.(type) {
+		case *ast.ForStmt:
+			if x.Body.Pos() <= pos && pos < x.Body.End() {
+				in = true
+			}
+		case *ast.RangeStmt:
+			if x.Body.Pos() <= pos && pos < x.Body.End() {
+				in = true
+			}
+		}
+		return true
+	})
+	return in
 }
